@@ -498,10 +498,8 @@ def r_taint_index(ctx, extra=None):
                 verdict, why = False, "index %s into input-derived/sized container without a visible bound" % tstr(idx)[:60]
                 # v[0] after `!v.is_empty()` (or for a chunk of `chunks`, which is never empty)
                 if idx == C(0):
-                    for d in p.decisions(e.seq):
-                        c = unmut(d.d["cond"])
-                        if is_call_to(c, lambda s: s.endswith("::is_empty")) and c[2][0] == base and d.d["outcome"] is False:
-                            verdict, why = True, "guarded: is_empty() refuted on this path"
+                    if knows(p, ("empty", base, False), e.seq) is not None:
+                        verdict, why = True, "guarded: is_empty() refuted on this path"
                     if base[0] == "elem" and is_call_to(base[1], lambda s: s.endswith("::chunks")):
                         verdict, why = True, "chunk of chunks(): never empty"
                 for (fn, reason) in ALLOW_INDEX:
